@@ -6,6 +6,9 @@
 package world
 
 import (
+	"os"
+	"path/filepath"
+	"github.com/hashicorp/nodeenrollment/storage/file"
 	"sync"
 	"context"
 	"crypto/ecdh"
@@ -210,6 +213,49 @@ func (a *AliasStorage) Load(ctx context.Context, m nodeenrollment.MessageWithId)
 		}
 	}
 	return a.Storage.Load(ctx, m)
+}
+
+// SwitchStorage routes every operation to one of several handles on the SAME on-disk directory (several processes
+// sharing a volume).  Cur selects the handle; -1 opens a fresh handle for the operation (used by the harness' own
+// projections and edits, so that nothing a handle may remember gets in their way).
+type SwitchStorage struct {
+	Dir     string
+	Handles []nodeenrollment.Storage
+	Cur     int
+}
+
+func (s *SwitchStorage) h() nodeenrollment.Storage {
+	if s.Cur >= 0 && s.Cur < len(s.Handles) {
+		return s.Handles[s.Cur]
+	}
+	f, err := file.New(context.Background(), file.WithBaseDirectory(s.Dir))
+	if err != nil {
+		panic(err)
+	}
+	return f
+}
+func (s *SwitchStorage) Store(ctx context.Context, m nodeenrollment.MessageWithId) error { return s.h().Store(ctx, m) }
+func (s *SwitchStorage) Load(ctx context.Context, m nodeenrollment.MessageWithId) error  { return s.h().Load(ctx, m) }
+func (s *SwitchStorage) Remove(ctx context.Context, m nodeenrollment.MessageWithId) error {
+	return s.h().Remove(ctx, m)
+}
+func (s *SwitchStorage) List(ctx context.Context, m proto.Message) ([]string, error) { return s.h().List(ctx, m) }
+
+// NewSwitchStorage creates n handles on a new temporary directory; cleanup removes it.
+func NewSwitchStorage(n int) (*SwitchStorage, func(), error) {
+	tmp, err := os.MkdirTemp("", "nevshared")
+	if err != nil {
+		return nil, nil, err
+	}
+	sw := &SwitchStorage{Dir: filepath.Join(tmp, "store"), Cur: -1}
+	for i := 0; i < n; i++ {
+		f, err := file.New(context.Background(), file.WithBaseDirectory(sw.Dir))
+		if err != nil {
+			return nil, nil, err
+		}
+		sw.Handles = append(sw.Handles, f)
+	}
+	return sw, func() { _ = os.RemoveAll(tmp) }, nil
 }
 
 type Config struct {
